@@ -98,7 +98,10 @@ Structural == {
   "&amp;", "&#65;", "&#x41;", "&lt;", "&bogus;", "&#99999999999;", "&#xD800;",
   "{{", "}}", "{{{", "}}}", "{{Echo|", "{{!}}", "{{Loop}}", "{{#if:",
   "<noinclude>", "</noinclude>", "<includeonly>", "</includeonly>", "<onlyinclude>", "</onlyinclude>",
-  "__TOC__", "NONBMP", "EBAD", "UNIQ", "DEL", "NUL" }
+  "__TOC__", "NONBMP", "EBAD", "UNIQ", "DEL", "NUL",
+  \* tags and comment delimiters spelled through character entities (named, decimal, hex): text, not markup
+  "&lt;nowiki&gt;", "&lt;/nowiki&gt;", "&#60;/nowiki&#62;", "&#x3c;nowiki&#x3e;", "&lt;/pre&gt;", "&lt;ref&gt;",
+  "&lt;b&gt;", "&lt;!--", "--&gt;" }
 
 Markup == Extended \cup Structural \cup TemplateSyntax
   \cup {OpenTag(t) : t \in ReprTags} \cup {CloseTag(t) : t \in ReprTags}
@@ -118,10 +121,37 @@ Markup == Extended \cup Structural \cup TemplateSyntax
   \* imagemap / gallery / timeline / math bodies that their own parsers look at
   "rect 0 0 1 1 [[a]]", "default [[a]]", "\\frac{1}{2}", "\\begin{x}" }
 
-Full == Markup
+\* image links with one option of every family the image-modifier code knows (util.ImageMod /
+\* handle_imagemod): sizes well-formed and malformed, upright, frame / alignment words, link / alt /
+\* page, unknown and empty options; as a whole link (one lexeme, so that the single-lexeme
+\* enumeration reaches the option code), after another option, through a template argument, and
+\* under the canonical, the legacy and two localised namespace names
+ImgOptions == {"200px", "x200px", "100x200px", "1x2x3px", "xxpx", "xpx", "0px", "99999999999px", "100 px", "px",
+  "upright", "upright=1.5", "upright=x", "upright 2", "thumb", "thumbnail=b.png", "frame", "frameless", "border",
+  "left", "right", "center", "none", "baseline", "link=", "link=http://ex.org", "alt=", "alt=a b", "page=2",
+  "page=x", "bogus=1", "", " "}
+ImgLink(ns, pre, opt) == "[[" \o ns \o ":a.png|" \o pre \o opt \o "]]"
+ImageLinks == {ImgLink("Image", "", o) : o \in ImgOptions}
+         \cup {ImgLink("File", "thumb|", o) : o \in ImgOptions}
+         \cup {"{{Echo|" \o ImgLink("Image", "", o) \o "}}" : o \in ImgOptions}
+         \cup {ImgLink("Bild", "", o) : o \in {"1x2x3px", "100x200px", "hochkant=1.5", "miniatur", "links"}}
+         \cup {ImgLink("Fichier", "", o) : o \in {"1x2x3px", "vignette", "gauche"}}
+
+Full == Markup \cup ImageLinks
   \cup {OpenTag(t) : t \in HtmlTags \cup ExtTags}
   \cup {CloseTag(t) : t \in HtmlTags \cup ExtTags}
   \cup {SelfTag(t) : t \in HtmlTags \cup ExtTags}
+
+\* in-context, character-level pumping (growth clause of C01): a UNIT is repeated n times inside a
+\* ZONE, i.e. a place whose content is handed to a sub-parser (attribute parsers, link / URL / entity /
+\* heading / template-name scanners).  The harness concretises zones as (prefix, suffix) and units as
+\* text (harness/wikitext.py ZONES, UNITS) and refuses to run when the tables disagree with these sets.
+Zones == {"tag-attr", "unknown-tag-attr", "closing-tag-attr", "ext-tag-attr", "opaque-tag-attr", "attr-value",
+          "table-attr", "row-attr", "cell-attr", "header-cell-attr", "caption-attr",
+          "link-target", "link-label", "image-option", "url", "bracket-url", "bracket-url-label", "mailto",
+          "entity-name", "entity-number", "heading", "list-item", "pre-line", "comment",
+          "template-name", "template-arg", "template-param", "parser-function", "magic-word", "nowiki-body"}
+PumpUnits == {"a", "1", "_", "-", ":", "SP_a", "=", "a=", "QUOTE", "APOS", "x", "|", "&", ";", "NONBMP", "/"}
 
 Lexemes == CASE Alphabet = "core" -> Core
              [] Alphabet = "extended" -> Extended
@@ -199,5 +229,6 @@ EmitSeq == (Len(seq) >= EmitFrom) =>
 \* once per run: the alphabet itself, so that the harness can check its concretisation table
 ASSUME PrintT("@@" \o ToJson([alphabet |-> Lexemes, openers |-> Openers \cap Lexemes, closers |-> Closers \cap Lexemes,
                               structural |-> Structural \cap Lexemes, langsensitive |-> LangSensitive \cap Lexemes,
-                              pumpcore |-> PumpCore \cap Lexemes]))
+                              pumpcore |-> PumpCore \cap Lexemes, imagelinks |-> ImageLinks \cap Lexemes,
+                              zones |-> Zones, units |-> PumpUnits]))
 =============================================================================
